@@ -34,7 +34,8 @@ import hirq
 UNITS_FLOOR = 88      # dimension checks counted on the pinned tree in the fragmented + common regions
 from callgraph import callgraph
 from facts import short
-from mir import body_of, callee_path, op_place
+from mir import body_of, callee_path, op_place, strip_generics
+from panicfree import fn_short
 from report import site_of
 
 
@@ -137,7 +138,7 @@ def fragment_facts(fx, cg, fn):
     """
     import c07
     import loops as LP
-    from mir import strip_generics
+    pass
     body = body_of(fn)
     facts = {"decode": False, "offset": None, "lockstep": False, "attach": False, "lookup": False, "unknown": False, "default": None}
     pushes = [(b, t) for b, t in body.calls() if strip_generics(t["callee"].get("path") or "") == "alloc::vec::Vec::push" and len(t["args"]) == 2]
@@ -622,6 +623,68 @@ def run(fx, chk, tier):
             else:
                 chk.bad("R-OWNFRAG", key, "%s reaches into %s with %s(): the result depends on fragments other than the one the sample lies in" % (nm, base, tail), site_of(fn, t.get("line")))
     chk.floor("R-OWNFRAG", "fragment element accesses in the lookups", nown, 5)
+    # ---------------- R-FILEORDER: fragments stay in the order in which they appear in the file
+    chk.rule("R-FILEORDER", "movie fragments, their offsets and the per-track fragment lists are kept in file order: in the whole program no reordering or removing operation is applied to a sequence of MoofBox / TrafBox / (MoofBox, offset) elements, and the fragment lists only grow by push / extend (sample ids of a fragmented track count fragments in file order, and what a prefix of the file yields is a prefix of what the file yields)")
+    REORDER = ("sort", "sort_by", "sort_by_key", "sort_by_cached_key", "sort_unstable", "sort_unstable_by", "sort_unstable_by_key", "reverse", "swap", "swap_remove",
+               "rotate_left", "rotate_right", "retain", "retain_mut", "dedup", "dedup_by", "dedup_by_key", "remove", "insert", "drain", "truncate", "pop", "split_off", "splice",
+               "select_nth_unstable", "select_nth_unstable_by_key", "select_nth_unstable_by")
+    FRAGTY = ("MoofBox", "TrafBox")
+    nfo = 0
+    npush = 0
+    for fid, fn in sorted(fx.fns.items()):
+        b = body_of(fn)
+        if b is None or fn.get("derived") or "tests::" in fid:
+            continue
+        for blk, t in b.calls():
+            path_ = t["callee"].get("path") or ""
+            full_ = t["callee"].get("full") or ""
+            tail = strip_generics(path_).split("::")[-1]
+            recv_ty = ""
+            if t["args"]:
+                pl_ = op_place(t["args"][0])
+                recv_ty = str((pl_ or {}).get("ty") or "")
+            frag_seq = any(x in recv_ty for x in FRAGTY) and ("Vec<" in recv_ty or "[" in recv_ty or "Iter<" in recv_ty or "IntoIter<" in recv_ty or "Zip<" in recv_ty)
+            offs = bool(t["args"]) and ("moof_offsets" in b.op_str(t["args"][0]))
+            if not (frag_seq or offs):
+                # the element type may only show in the instantiation (`<[(MoofBox, u64)]>::sort_by_key::<..>`)
+                frag_seq = any(x in full_.split("::" + tail)[0] for x in FRAGTY) and tail in REORDER and ("slice" in path_ or "Vec" in path_ or "iter" in path_.lower())
+            if not (frag_seq or offs):
+                continue
+            if tail in ("push", "extend", "extend_from_slice"):
+                npush += 1
+            if tail in REORDER:
+                nfo += 1
+                chk.bad("R-FILEORDER", "%s|%s" % (fn_short(fid), tail), "%s applies %s() to a sequence of movie-fragment data (%s): fragments no longer stay in file order" % (fn_short(fid), tail, (recv_ty or full_)[:80]), site_of(fn, t.get("line")))
+    if not nfo:
+        chk.ok("R-FILEORDER", "program", "no reordering / removing call on a fragment sequence in %d bodies; %d growth sites" % (len(fx.fns), npush), site_of(fx.impl_fn("Mp4Reader<R>", None, "read_header")))
+    chk.floor("R-FILEORDER", "growth sites (push / extend) of fragment sequences", npush, 3)
+    # ---------------- R-SCANLEN: the length the header scan walked decides nothing about samples
+    chk.rule("R-SCANLEN", "Mp4Reader.size (the number of bytes the top-level scan walked, which stops at a size-0 box and does not count what a later fragment read adds) is read only by the size() accessor: no lookup or sample read accepts, rejects or clips a sample by it (a sample of an open-ended final mdat lies beyond it)")
+    nscan = 0
+    import c14 as _c14
+    for fid, fn in sorted(fx.fns.items()):
+        b = body_of(fn)
+        if b is None or fn.get("derived") or "tests::" in fid:
+            continue
+        hits = []
+        for blk in b.reach:
+            for st_ in b.stmts(blk):
+                if st_["k"] != "assign":
+                    continue
+                rv = st_["rv"]
+                pls = [op_place(o) for o in _c14.ops_of(rv)]
+                if rv["k"] in ("ref", "discr", "len"):
+                    pls.append(rv.get("place"))
+                hits += [pl for pl in pls if pl and _c14.place_has(pl, "Mp4Reader", "size")]
+            t = b.term(blk)
+            if t["k"] == "call":
+                hits += [pl for pl in (op_place(a) for a in t["args"]) if pl and _c14.place_has(pl, "Mp4Reader", "size")]
+        if not hits:
+            continue
+        nscan += 1
+        is_acc = fn["name"] == "size" and short((fn.get("impl") or {}).get("self_ty", "")).startswith("Mp4Reader")
+        chk.require(is_acc, "R-SCANLEN", fn_short(fid), "the size() accessor", "%s reads Mp4Reader.size, the length of the top-level scan: what it computes depends on where the scan stopped, not on the sample tables" % fn_short(fid), site_of(fn))
+    chk.floor("R-SCANLEN", "functions reading Mp4Reader.size", nscan, 1)
     # ---------------- R-BASE: the moof start is only the fallback of the explicit base data offset
     chk.rule("R-BASE", "the start of the enclosing movie fragment is used as the base of a sample's offset only when the tfhd carries no explicit base data offset: every use of moof_offsets[idx] is the default of `tfhd.base_data_offset` (unwrap_or / map_or / the None side of a test of that field)")
     nbase = 0
@@ -661,7 +724,7 @@ def run(fx, chk, tier):
     # ---------------- R-FRESH: the tracks of a newly opened reader start without fragments
     chk.rule("R-FRESH", "every Mp4Track of a reader being opened is built from its trak box (From<&TrakBox>), never copied from a reader that may already hold fragments")
     from packs_common import reader_entries
-    from mir import strip_generics
+    pass
     rclo = cg.closure(reader_entries(fx))
     nfresh = 0
     for nm, fn_ in (("read_header", rh), ("read_fragment_header", rf)):
